@@ -109,6 +109,29 @@ fn pool() -> &'static Pool {
         }
         // one long non-ASCII string (length counted in bytes: 3 * 5462 = 16386)
         all.push(Box::leak("語".repeat(5462).into_boxed_str()));
+        // short ASCII prefixes followed by 2-, 3- and 4-byte characters: a
+        // multi-byte character across every small offset a fixed-size prefix
+        // or buffer could end at
+        for k in [7usize, 8, 15, 16, 23, 24, 31, 32, 63, 64] {
+            for c in ['\u{e9}', '\u{8a9e}', '\u{1F600}'] {
+                for back in 0..2usize {
+                    let mut s = "Zahlung_".repeat(9);
+                    s.truncate(k - back);
+                    s.push(c);
+                    s.push_str("berziehung");
+                    all.push(Box::leak(s.into_boxed_str()));
+                }
+            }
+        }
+        // ASCII filler with a 4-byte scalar straddling a power-of-two offset
+        for at in [255usize, 1023, 4095, 16383] {
+            for shift in 0..3usize {
+                let mut s = "f".repeat(at - shift);
+                s.push('\u{1F600}');
+                s.push_str("tail");
+                all.push(Box::leak(s.into_boxed_str()));
+            }
+        }
         let long = (lo, all.len() as u16);
         Pool {
             all,
@@ -149,9 +172,9 @@ pub struct StrCfg {
 
 pub fn ident(rng: &mut Rng, c: &StrCfg) -> StrId {
     if rng.permille(c.long) {
-        // all but the last long string are valid identifiers
+        // the first LONG_LENS.len() long strings are valid identifiers
         let p = pool();
-        return p.long.0 + rng.below((p.long.1 - p.long.0 - 1) as u64) as u16;
+        return p.long.0 + rng.below(LONG_LENS.len() as u64) as u16;
     }
     if rng.permille(c.odd) {
         return pick(rng, pool().odd);
